@@ -152,6 +152,35 @@ VERIF_REACH_ENSURES(ContextualCheckBlock_bip34, bip34_active && __CPROVER_return
 VERIF_REACH_ENSURES(ContextualCheckBlock_bip34, bip34_active && !__CPROVER_return_value && nHeight == 128 && cb_scriptSig->size > 5 && SIG(0) == 1)
 __CPROVER_assigns(state->mode_invalid, state->result, state->reason, g_thrown);
 
+/* ---- CScript::GetSigOpCount(fAccurate): BIP16 / consensus counting rule ---- */
+typedef struct { size_t n; } OpStream;                 /* the script as GetOp decodes it, one instruction per call */
+unsigned char nondet_uchar(void);
+bool g_acc; int g_prev_op; uint64_t g_spec_n; bool g_stopped; size_t g_decoded;
+static inline bool OpStream_GetOp(const OpStream* s, size_t* pc, opcodetype* opcode)      /* VERIF_STUB of CScript::GetOp; keeps the count the rule prescribes */
+{
+    bool ok = nondet_bool(); int op = nondet_uchar(); *pc = *pc + 1;
+    if (!ok) { g_stopped = 1; *opcode = 0xff; return 0; }
+    uint64_t c = 0;
+    if (op == 0xac || op == 0xad) c = 1;                                                                      /* OP_CHECKSIG, OP_CHECKSIGVERIFY */
+#ifdef TWIN_OP0
+    else if (op == 0xae || op == 0xaf) c = (g_acc && (g_prev_op == 0x00 || (g_prev_op >= 0x51 && g_prev_op <= 0x60))) ? (g_prev_op == 0 ? 0 : (uint64_t)(g_prev_op - 0x50)) : 20;
+#else
+    else if (op == 0xae || op == 0xaf) c = (g_acc && g_prev_op >= 0x51 && g_prev_op <= 0x60) ? (uint64_t)(g_prev_op - 0x50) : 20;   /* OP_CHECKMULTISIG(VERIFY): the key count pushed by OP_1..OP_16 right before it (accurate mode), else 20 */
+#endif
+    g_spec_n = g_spec_n + c; g_prev_op = op; g_decoded = g_decoded + 1; *opcode = op; return 1;
+}
+#define LOOP_SIGOPSCAN \
+    __CPROVER_assigns(pc, n, lastOpcode, g_prev_op, g_spec_n, g_stopped, g_decoded) \
+    __CPROVER_loop_invariant(pc <= self->n && !g_stopped && g_decoded == pc && (uint64_t)n == g_spec_n && g_spec_n <= 20 * (uint64_t)pc && lastOpcode == g_prev_op) \
+    __CPROVER_decreases(self->n - pc)
+VERIF_REACH_DECL(CScript_GetSigOpCount)
+unsigned int CScript_GetSigOpCount(const OpStream* self, bool fAccurate)
+__CPROVER_requires(__CPROVER_is_fresh(self, sizeof(OpStream)) && self->n <= 0x02000000 && fAccurate <= 1 && g_acc == fAccurate && g_prev_op == 0xff && g_spec_n == 0 && !g_stopped && g_decoded == 0)
+__CPROVER_ensures((uint64_t)__CPROVER_return_value == g_spec_n && (g_stopped || g_decoded == self->n))
+VERIF_REACH_ENSURES(CScript_GetSigOpCount, __CPROVER_return_value == 23 && fAccurate && g_decoded == 4 && !g_stopped)
+VERIF_REACH_ENSURES(CScript_GetSigOpCount, __CPROVER_return_value == 20 && fAccurate && g_decoded == 2 && g_stopped)
+__CPROVER_assigns(g_prev_op, g_spec_n, g_stopped, g_decoded);
+
 /* ---- GetBlockWeight and the weight limit of ContextualCheckBlock ---- */
 int64_t GetBlockWeight(const CBlockView* block)
 __CPROVER_requires(__CPROVER_is_fresh(block, sizeof(CBlockView)) && block->ser_size_nowit <= 0x100000000ull && block->ser_size_total <= 0x100000000ull)
@@ -174,6 +203,7 @@ void h_CheckBlock(void) { CBlockView* b; BlockValidationState* st; const Consens
     g_k = nondet_size_t(); g_k_coinbase = nondet_bool(); g_k_txok = nondet_bool(); g_k_txreason = nondet_uint(); g_k_sigops = nondet_uint(); VERIF_REACH_ON(CheckBlock); CheckBlock(b, st, cp, pow, mr); }
 void h_GetTransactionSigOpCost(void) { const TxView* t; unsigned fl; g_i = nondet_size_t(); g_i_wit = nondet_size_t(); VERIF_REACH_ON(GetTransactionSigOpCost); GetTransactionSigOpCost(t, fl); }
 void h_sigops_accumulation(void) { int64_t* c; const TxView* t; BlockValidationState* st; unsigned fl; int r = ConnectBlock_sigops_accumulation(c, t, fl, st); if (r) VERIF_REACH_PT("rejected"); else VERIF_REACH_PT("accepted"); }
+void h_GetSigOpCount(void) { const OpStream* sc; bool acc = nondet_bool(); g_acc = acc; g_prev_op = 0xff; VERIF_REACH_ON(CScript_GetSigOpCount); CScript_GetSigOpCount(sc, acc); }
 void h_bip34(void) { const ByteVec* sg; BlockValidationState* st; int h; bool act = nondet_bool(); VERIF_REACH_ON(ContextualCheckBlock_bip34); ContextualCheckBlock_bip34(sg, h, act, st); }
 void h_GetBlockWeight(void) { const CBlockView* b; GetBlockWeight(b); VERIF_REACH_PT("weight"); }
 void h_weight_limit(void) { const CBlockView* b; BlockValidationState* st; bool r = ContextualCheckBlock_weight_limit(b, st); if (r) VERIF_REACH_PT("accepted"); else VERIF_REACH_PT("rejected"); }
